@@ -17,7 +17,7 @@ COMPONENTS = c04.COMPONENTS
 ASSUMPTIONS = ["placement bound: a proper rigid motion must map search+replacement coordinates onto matched+inserted positions within "
                "3*K*eps*sqrt(n) + 1e-6*(1+reach) (eps = noise actually planted, K*eps <= atol/2, so the bound is proportional to the tolerance)",
                "joint-motion equality is compared only when no tie-break had more than one candidate (otherwise each run is judged on its own)"]
-NRUNS = {"quick": 1500, "thorough": 40000}
+NRUNS = {"quick": 4000, "thorough": 60000}
 MUST_REACH = ["inserted_atoms_checked", "triclinic_worlds", "inserted_atoms_needed_wrapping", "joint_motion_comparisons"]
 
 
